@@ -1367,3 +1367,282 @@ Proof.
   pose proof (C05_denote_bare d _ _ _ _ _ H0 I3 D2) as D5.
   exact (conj H0 (conj I1 (conj I2 (conj I3 (conj D1 (conj D2 (conj D3 (conj D4 D5)))))))).
 Qed.
+
+(* ================================================================================================== *)
+(* added from Properties/C05_add.v (2026-10-01)                                              *)
+(* ================================================================================================== *)
+(* C05 (addition)  The missing link: the parser really delivers the SDict the C05 theorems speak about. *)
+From Coq Require Import String.
+From Coq Require Import NArith ZArith List Bool Permutation.
+From DictIO Require Import Chars Str Value Scalar KeyPath SDict Layout Lexer TokParser Reader Expr Eval
+     E2ESpec MiscSpec EvalSpec FlatSpec IndexSpec EvalProofs E2EHoles E2EKeyTok JsonNativeExpr RefTextProofs FlatEngine
+     FlatIndexProofs FlatParseProofs.
+Import ListNotations.
+
+(* ================================================================================================ *)
+(* [render_pdoc p] (FlatParseProofs.v): the native text of a document p : pdoc.  One statement per entry, statements
+   separated (and the file ended) by a line feed; inside a statement the tokens are separated by one blank, nothing in
+   front of a semicolon:
+        x 5;             an integer                       PDyn x (FInt 5)
+        x "$y + $l[1]";  an expression, the text is  render g a  (the layout g of the document)   PDyn x (FExp _ g a)
+        x $y;   x $m[1]; a bare reference: an expression whose text is a reference (is_ref_str (render g a) = true)
+        sub { y 4; name pump; deep { z 5; m ( 7 9 ); } }     l ( 3 5 8 );      static entries   PStat x t
+   It is  dtxt ltSrc key_text c_lf (psrc p) ++ [c_lf]  where psrc p is the dict with the expression strings as leaves.
+   [pnumbered c p]: p with the expression ids the parser hands out when its counter stands at c: the QUOTED expressions
+   in document order first (ids c (#quoted)), then the BARE references (the next ids).
+   [ptab q]: the flattened document psem q in the order of the parser's table: quoted, bare (, integers).
+   [pparsed c p] = mkParsed (psdict_ord q (ptab q) [] [] []) c'   with q = pnumbered c p, c' the counter after #quoted + #bare
+   steps: exactly the SDict of C05_nested_direct_value_any_table_order.
+   Side conditions (both boolean):
+   [pdoc_plain p]: every top-level name is a key that reads back as itself (simple_key: not "7", not "true", no reserved
+     word ...), the leaves of the static entries are written bare and read back as themselves (is_plain_leaf: integers,
+     booleans, None, floats and single words that the classifier does not re-type), their keys are simple;
+   [nodupb (qexps p)]: the texts of the quoted expressions are pairwise different.                                      *)
+(* ================================================================================================ *)
+
+(* ---- (2) the parser delivers psdict_ord ------------------------------------------------------------------------------ *)
+Theorem C05_parser_delivers_psdict : forall com dir c p, pdoc_ok p -> pdoc_plain p = true -> nodupb (qexps p) = true ->
+  (-1 <= c)%Z -> (Z.of_nat (length (qexps p) + length (bexps p)) <= 1000000)%Z ->
+  parse_string com dir c (render_pdoc p) = Ok (pparsed c p).
+Proof. exact parser_delivers_psdict_b. Qed.
+Print Assumptions C05_parser_delivers_psdict.
+
+(* what pparsed is, and that it composes with C05_nested_direct_value_any_table_order: the numbered document is
+   well-formed, its table order is a permutation of its flattened document, it has the same text, the same names and the
+   same meaning as p *)
+Theorem C05_parser_numbering : forall c p, pdoc_ok p -> (-1 <= c)%Z ->
+  (Z.of_nat (length (qexps p) + length (bexps p)) <= 1000000)%Z ->
+  pparsed c p = mkParsed (psdict_ord (pnumbered c p) (ptab (pnumbered c p)) [] [] [])
+                         (cafter (cafter c (length (qexps p))) (length (bexps p))) /\
+  pdoc_ok (pnumbered c p) /\ Permutation (psem (pnumbered c p)) (ptab (pnumbered c p)) /\
+  render_pdoc (pnumbered c p) = render_pdoc p /\ map pname (pnumbered c p) = map pname p /\
+  (forall x, denote (psem (pnumbered c p)) x = denote (psem p) x) /\
+  total_doc (psem (pnumbered c p)) = total_doc (psem p).
+Proof. intros c p Hok Hc Hm. split; [exact (pparsed_eq c p)|exact (numbering_composes c p Hok Hc Hm)]. Qed.
+Print Assumptions C05_parser_numbering.
+
+(* the document of C05_nested_direct_value_nonvacuous: its text, the side conditions, the parse; its ids are the ones the
+   parser hands out from -1 (quoted a b f u w: 0..4, bare c g e h: 5..8) *)
+Example C05_parser_delivers_psdict_nonvacuous :
+  render_pdoc ex_p = of_string "a ""$y + $l[1]"";
+sub { y 4; name pump; deep { z 5; flag true; m ( 7 9 ); } }
+l ( 3 5 8 );
+b ""$z*$a"";
+f ""$c - $l[0]"";
+u ""$e * $h"";
+w "" $u "";
+c $m[1];
+n 2;
+g $n;
+e $c;
+h $f;
+" /\
+  pdoc_ok ex_p /\ pdoc_plain ex_p = true /\ nodupb (qexps ex_p) = true /\
+  length (qexps ex_p) = 5%nat /\ length (bexps ex_p) = 4%nat /\
+  pnumbered (-1) ex_p = ex_p /\
+  parse_string true (of_string "/w") (-1) (render_pdoc ex_p) = Ok (mkParsed (psdict_ord ex_p (ptab ex_p) [] [] []) 8%Z) /\
+  map fst (sd_expr (psdict_ord ex_p (ptab ex_p) [] [] [])) = [0; 1; 2; 3; 4; 5; 6; 7; 8]%N.
+Proof.
+  split; [vm_compute; reflexivity|]. split; [exact ex_p_ok|]. split; [vm_compute; reflexivity|]. split; [vm_compute; reflexivity|].
+  split; [vm_compute; reflexivity|]. split; [vm_compute; reflexivity|].
+  assert (En : pnumbered (-1) ex_p = ex_p) by (vm_compute; reflexivity).
+  split; [exact En|]. split; [|vm_compute; reflexivity].
+  assert (Hc : (-1 <= -1)%Z) by (vm_compute; discriminate).
+  assert (Hm : (Z.of_nat (length (qexps ex_p) + length (bexps ex_p)) <= 1000000)%Z) by (vm_compute; discriminate).
+  assert (Hpl : pdoc_plain ex_p = true) by (vm_compute; reflexivity).
+  assert (Hnd : nodupb (qexps ex_p) = true) by (vm_compute; reflexivity).
+  rewrite (C05_parser_delivers_psdict true (of_string "/w") (-1) ex_p ex_p_ok Hpl Hnd Hc Hm).
+  destruct (C05_parser_numbering (-1) ex_p ex_p_ok Hc Hm) as [E _]. rewrite E, En. reflexivity.
+Qed.
+
+(* a document whose ids are NOT the parser's (all 0 would not even be pdoc_ok; here: reversed), bare references first in the
+   file: the parser renumbers -- ex_q of C05_nested_direct_value_any_table_order_nonvacuous with other ids *)
+Definition ex_t_q : pdoc :=
+  [ PDyn (of_string "g") (FExp 7 g_tight (ex_v "n"));
+    PDyn (of_string "n") (FInt 2);
+    PDyn (of_string "c") (FExp 5 g_tight (ex_v "m[1]"));
+    PDyn (of_string "a") (FExp 9 (ex_gi 3) (AAdd (ex_v "c") (ex_v "g")));
+    PStat (of_string "box") (Dict [(KS (of_string "m"), ex_ints [7; 9]%Z)]) ].
+
+Example C05_parser_numbering_nonvacuous :
+  pdoc_ok ex_t_q /\ pdoc_plain ex_t_q = true /\ nodupb (qexps ex_t_q) = true /\
+  render_pdoc ex_t_q = of_string "g $n;
+n 2;
+c $m[1];
+a ""$c + $g"";
+box { m ( 7 9 ); }
+" /\
+  pnumbered 16 ex_t_q = [ PDyn (of_string "g") (FExp 18 g_tight (ex_v "n")); PDyn (of_string "n") (FInt 2);
+                          PDyn (of_string "c") (FExp 19 g_tight (ex_v "m[1]"));
+                          PDyn (of_string "a") (FExp 17 (ex_gi 3) (AAdd (ex_v "c") (ex_v "g")));
+                          PStat (of_string "box") (Dict [(KS (of_string "m"), ex_ints [7; 9]%Z)]) ] /\
+  map fst (ptab (pnumbered 16 ex_t_q)) = map of_string ["a"; "g"; "c"; "n"; "m[0]"; "m[1]"]%string /\
+  parse_string false (of_string "/w") 16 (render_pdoc ex_t_q) = Ok (pparsed 16 ex_t_q) /\
+  pr_count (pparsed 16 ex_t_q) = 19%Z /\
+  pdoc_ok (pnumbered 16 ex_t_q) /\ denote (psem (pnumbered 16 ex_t_q)) (of_string "a") = Some 11%Z.
+Proof.
+  assert (Hok : pdoc_ok ex_t_q) by (unfold ex_t_q; pdoc_ok_tac).
+  split; [exact Hok|]. split; [vm_compute; reflexivity|]. split; [vm_compute; reflexivity|]. split; [vm_compute; reflexivity|].
+  split; [vm_compute; reflexivity|]. split; [vm_compute; reflexivity|].
+  assert (Hc : (-1 <= 16)%Z) by (vm_compute; discriminate).
+  assert (Hm : (Z.of_nat (length (qexps ex_t_q) + length (bexps ex_t_q)) <= 1000000)%Z) by (vm_compute; discriminate).
+  split; [apply (C05_parser_delivers_psdict false (of_string "/w") 16 ex_t_q Hok); try assumption; vm_compute; reflexivity|].
+  split; [vm_compute; reflexivity|].
+  destruct (C05_parser_numbering 16 ex_t_q Hok Hc Hm) as (_ & Hq & _ & _ & _ & Hd & _).
+  split; [exact Hq|]. rewrite Hd. vm_compute. reflexivity.
+Qed.
+
+(* ---- Corollary: reading the file.  Every dynamic entry holds the directly computed value ------------------------------ *)
+Theorem C05_text_direct_value : forall p fs root c, pdoc_ok p -> pdoc_plain p = true -> nodupb (qexps p) = true -> (-1 <= c)%Z ->
+  (Z.of_nat (length (qexps p) + length (bexps p)) <= 1000000)%Z -> total_doc (psem p) = true ->
+  fs_lookup (norm_path root) fs = Some (FNative (render_pdoc p)) ->
+  exists s', read_full fs root true c = Some (Ok (s', cafter (cafter c (length (qexps p))) (length (bexps p)))) /\
+    sd_expr s' = [] /\ map fst (sd_data s') = map KS (map pname p) /\
+    (forall x v z, In (PDyn x v) p -> denote (psem p) x = Some z -> alookup (KS x) (sd_data s') = Some (Leaf (SInt z))) /\
+    (forall x t, In (PStat x t) p -> alookup (KS x) (sd_data s') = Some t).
+Proof. exact text_direct_value_b. Qed.
+Print Assumptions C05_text_direct_value.
+
+(* the document of C05_nested_direct_value_nonvacuous, through its text *)
+Example C05_text_direct_value_nonvacuous :
+  let fs : fsys := [(of_string "/w/root", FNative (render_pdoc ex_p))] in
+  pdoc_ok ex_p /\ pdoc_plain ex_p = true /\ nodupb (qexps ex_p) = true /\ total_doc (psem ex_p) = true /\
+  exists s', read_full fs (of_string "/w/root") true (-1) = Some (Ok (s', 8%Z)) /\ sd_expr s' = [] /\
+    alookup (KS (of_string "a")) (sd_data s') = Some (Leaf (SInt 9)) /\
+    alookup (KS (of_string "b")) (sd_data s') = Some (Leaf (SInt 45)) /\
+    alookup (KS (of_string "c")) (sd_data s') = Some (Leaf (SInt 9)) /\
+    alookup (KS (of_string "f")) (sd_data s') = Some (Leaf (SInt 6)) /\
+    alookup (KS (of_string "g")) (sd_data s') = Some (Leaf (SInt 2)) /\
+    alookup (KS (of_string "e")) (sd_data s') = Some (Leaf (SInt 9)) /\
+    alookup (KS (of_string "h")) (sd_data s') = Some (Leaf (SInt 6)) /\
+    alookup (KS (of_string "u")) (sd_data s') = Some (Leaf (SInt 54)) /\
+    alookup (KS (of_string "w")) (sd_data s') = Some (Leaf (SInt 54)) /\
+    alookup (KS (of_string "l")) (sd_data s') = Some (ex_ints [3; 5; 8]%Z).
+Proof.
+  intros fs.
+  assert (Hpl : pdoc_plain ex_p = true) by (vm_compute; reflexivity).
+  assert (Hnd : nodupb (qexps ex_p) = true) by (vm_compute; reflexivity).
+  assert (Ht : total_doc (psem ex_p) = true) by (vm_compute; reflexivity).
+  refine (conj ex_p_ok (conj Hpl (conj Hnd (conj Ht _)))).
+  assert (Hc : (-1 <= -1)%Z) by (vm_compute; discriminate).
+  assert (Hm : (Z.of_nat (length (qexps ex_p) + length (bexps ex_p)) <= 1000000)%Z) by (vm_compute; discriminate).
+  assert (Hfs : fs_lookup (norm_path (of_string "/w/root")) fs = Some (FNative (render_pdoc ex_p))) by (vm_compute; reflexivity).
+  destruct (C05_text_direct_value ex_p fs (of_string "/w/root") (-1) ex_p_ok Hpl Hnd Hc Hm Ht Hfs) as (s' & Hr & Hx & _ & Hv & Hs).
+  exists s'. split; [exact Hr|]. split; [exact Hx|].
+  repeat split; first [ eapply Hv; [ex_p_unfold; cbn [In]; tauto | vm_compute; reflexivity]
+                      | apply Hs; ex_p_unfold; cbn [In]; tauto ].
+Qed.
+
+(* ---- findings: what the side conditions exclude --------------------------------------------------------------------- *)
+Definition ex_t_y1 : aexp := AAdd (ex_v "y") (ANum 1).
+
+(* (a) names that the classifier re-types (word_name allows them, simple_key does not): the key 7 comes back as the integer
+   key 7, the key true makes the parser raise (bool keys are outside the model; the library delivers the key True) *)
+Example C05_parser_key_finding :
+  let p7 : pdoc := [PDyn (of_string "7") (FInt 1)] in
+  let pt : pdoc := [PDyn (of_string "true") (FInt 1)] in
+  pdoc_ok p7 /\ pdoc_plain p7 = false /\
+  parse_string true (of_string "/w") (-1) (render_pdoc p7) = Ok (mkParsed (mkSD [(KI 7, Leaf (SInt 1))] [] [] [] []) (-1)%Z) /\
+  sd_data (pr_sd (pparsed (-1) p7)) = [(KS (of_string "7"), Leaf (SInt 1))] /\
+  pdoc_ok pt /\ pdoc_plain pt = false /\
+  parse_string true (of_string "/w") (-1) (render_pdoc pt) = Raise E_Outside.
+Proof.
+  intros p7 pt. split; [unfold p7; pdoc_ok_tac|]. split; [vm_compute; reflexivity|]. split; [vm_compute; reflexivity|].
+  split; [vm_compute; reflexivity|]. split; [unfold pt; pdoc_ok_tac|]. split; vm_compute; reflexivity.
+Qed.
+
+(* (b) a static string leaf that the classifier re-types: the string "5" comes back as the integer 5 *)
+Example C05_parser_static_leaf_finding :
+  let p : pdoc := [PStat (of_string "s") (Leaf (SStr (of_string "5")))] in
+  pdoc_ok p /\ pdoc_plain p = false /\
+  parse_string true (of_string "/w") (-1) (render_pdoc p) = Ok (mkParsed (mkSD [(KS (of_string "s"), Leaf (SInt 5))] [] [] [] []) (-1)%Z) /\
+  sd_data (pr_sd (pparsed (-1) p)) = [(KS (of_string "s"), Leaf (SStr (of_string "5")))].
+Proof. intros p. split; [unfold p; pdoc_ok_tac|]. repeat split; vm_compute; reflexivity. Qed.
+
+(* (c) a static string that needs quotes: the string literals of a file are numbered BEFORE its expressions (one counter),
+   so the ids of the expressions are shifted by the number of literals (here a gets id 1, the counter ends at 1; pparsed
+   says id 0, counter 0).  Not covered by pdoc_plain: the statement would have to start the numbering behind the literals *)
+Example C05_parser_quoted_static_finding :
+  let p : pdoc := [PStat (of_string "s") (Leaf (SStr (of_string "a b"))); PDyn (of_string "y") (FInt 4);
+                   PDyn (of_string "a") (FExp 0 g_tight ex_t_y1)] in
+  pdoc_ok p /\ pdoc_plain p = false /\
+  render_pdoc p = of_string "s 'a b';
+y 4;
+a ""$y+1"";
+" /\
+  (exists pr, parse_string true (of_string "/w") (-1) (render_pdoc p) = Ok pr /\ pr_count pr = 1%Z /\
+              map fst (sd_expr (pr_sd pr)) = [1%N] /\
+              sd_data (pr_sd pr) = [(KS (of_string "s"), Leaf (SStr (of_string "a b"))); (KS (of_string "y"), Leaf (SInt 4));
+                                    (KS (of_string "a"), Leaf (SStr (ph_of 1)))]) /\
+  pr_count (pparsed (-1) p) = 0%Z /\ map fst (sd_expr (pr_sd (pparsed (-1) p))) = [0%N].
+Proof.
+  intros p. split; [unfold p; pdoc_ok_tac|]. split; [vm_compute; reflexivity|]. split; [vm_compute; reflexivity|].
+  split; [|split; vm_compute; reflexivity].
+  destruct (parse_string true (of_string "/w") (-1) (render_pdoc p)) as [pr|e] eqn:E; [|vm_compute in E; discriminate E].
+  exists pr. split; [reflexivity|]. vm_compute in E. inversion E; subst pr. repeat split; vm_compute; reflexivity.
+Qed.
+
+(* (d) two quoted expressions with the same text: the lexer replaces EVERY occurrence of the first text by the first
+   placeholder; both leaves hold EXPRESSION000000, the second table entry (id 1) is never referred to.  (The values the
+   reader computes are still the direct ones: a = b = 5.)  Bare references may repeat. *)
+Example C05_parser_duplicate_expression_finding :
+  let p : pdoc := [PDyn (of_string "y") (FInt 4); PDyn (of_string "a") (FExp 0 g_tight ex_t_y1);
+                   PDyn (of_string "b") (FExp 1 g_tight ex_t_y1)] in
+  let fs : fsys := [(of_string "/w/root", FNative (render_pdoc p))] in
+  pdoc_ok p /\ pdoc_plain p = true /\ nodupb (qexps p) = false /\
+  render_pdoc p = of_string "y 4;
+a ""$y+1"";
+b ""$y+1"";
+" /\
+  (exists pr, parse_string true (of_string "/w") (-1) (render_pdoc p) = Ok pr /\
+              sd_data (pr_sd pr) = [(KS (of_string "y"), Leaf (SInt 4)); (KS (of_string "a"), Leaf (SStr (ph_of 0)));
+                                    (KS (of_string "b"), Leaf (SStr (ph_of 0)))] /\
+              sd_expr (pr_sd pr) = sd_expr (pr_sd (pparsed (-1) p))) /\
+  sd_data (pr_sd (pparsed (-1) p)) = [(KS (of_string "y"), Leaf (SInt 4)); (KS (of_string "a"), Leaf (SStr (ph_of 0)));
+                                      (KS (of_string "b"), Leaf (SStr (ph_of 1)))] /\
+  (exists s', read_full fs (of_string "/w/root") true (-1) = Some (Ok (s', 1%Z)) /\
+              sd_data s' = [(KS (of_string "y"), Leaf (SInt 4)); (KS (of_string "a"), Leaf (SInt 5)); (KS (of_string "b"), Leaf (SInt 5))]).
+Proof.
+  intros p fs. split; [unfold p, ex_t_y1; pdoc_ok_tac|]. split; [vm_compute; reflexivity|]. split; [vm_compute; reflexivity|].
+  split; [vm_compute; reflexivity|]. split; [|split; [vm_compute; reflexivity|]].
+  - destruct (parse_string true (of_string "/w") (-1) (render_pdoc p)) as [pr|e] eqn:E; [|vm_compute in E; discriminate E].
+    exists pr. split; [reflexivity|]. vm_compute in E. inversion E; subst pr. split; vm_compute; reflexivity.
+  - destruct (read_full fs (of_string "/w/root") true (-1)) as [[[s' c']|e]|] eqn:E; try (vm_compute in E; discriminate E).
+    vm_compute in E. inversion E; subst s' c'. eexists. split; reflexivity.
+Qed.
+
+(* bare references may repeat (each occurrence gets its own id) *)
+Example C05_parser_repeated_bare_reference :
+  let p : pdoc := [PDyn (of_string "y") (FInt 4); PDyn (of_string "a") (FExp 0 g_tight (ex_v "y"));
+                   PDyn (of_string "b") (FExp 1 g_tight (ex_v "y"))] in
+  pdoc_ok p /\ pdoc_plain p = true /\ nodupb (qexps p) = true /\ bexps p = [of_string "$y"; of_string "$y"] /\
+  parse_string true (of_string "/w") (-1) (render_pdoc p) = Ok (pparsed (-1) p) /\ pnumbered (-1) p = p.
+Proof.
+  intros p. assert (Hok : pdoc_ok p) by (unfold p; pdoc_ok_tac).
+  split; [exact Hok|]. split; [vm_compute; reflexivity|]. split; [vm_compute; reflexivity|]. split; [vm_compute; reflexivity|].
+  split; [|vm_compute; reflexivity].
+  apply (C05_parser_delivers_psdict true (of_string "/w") (-1) p Hok); vm_compute; try reflexivity; discriminate.
+Qed.
+
+
+(* (e) the counter below -1 (the finding of C01: Z.to_N (-1) = Z.to_N 0 = 0, both expressions get the id 0, the second table
+   entry overwrites the first): the parser delivers ONE table entry, a is evaluated with the text of b.  Hence (-1 <= c). *)
+Example C05_parser_counter_finding :
+  let p : pdoc := [PDyn (of_string "y") (FInt 4); PDyn (of_string "a") (FExp 0 g_tight ex_t_y1);
+                   PDyn (of_string "b") (FExp 1 g_tight (AAdd (ex_v "y") (ANum 2)))] in
+  let fs : fsys := [(of_string "/w/root", FNative (render_pdoc p))] in
+  pdoc_ok p /\ pdoc_plain p = true /\ nodupb (qexps p) = true /\
+  (exists pr, parse_string true (of_string "/w") (-2) (render_pdoc p) = Ok pr /\
+              sd_expr (pr_sd pr) = [(0%N, (of_string "$y+2", ph_of 0))]) /\
+  map fst (sd_expr (pr_sd (pparsed (-2) p))) = [0%N; 0%N] /\
+  denote (psem p) (of_string "a") = Some 5%Z /\
+  (exists s', read_full fs (of_string "/w/root") true (-2) = Some (Ok (s', 0%Z)) /\
+              alookup (KS (of_string "a")) (sd_data s') = Some (Leaf (SInt 6))).
+Proof.
+  intros p fs. split; [unfold p, ex_t_y1; pdoc_ok_tac|]. split; [vm_compute; reflexivity|]. split; [vm_compute; reflexivity|].
+  split; [|split; [vm_compute; reflexivity|split; [vm_compute; reflexivity|]]].
+  - destruct (parse_string true (of_string "/w") (-2) (render_pdoc p)) as [pr|e] eqn:E; [|vm_compute in E; discriminate E].
+    exists pr. split; [reflexivity|]. vm_compute in E. inversion E; subst pr. vm_compute. reflexivity.
+  - destruct (read_full fs (of_string "/w/root") true (-2)) as [[[s' c']|e]|] eqn:E; try (vm_compute in E; discriminate E).
+    vm_compute in E. inversion E; subst s' c'. eexists. split; reflexivity.
+Qed.
